@@ -205,7 +205,7 @@ def fam_gqa_norm(st):
     insts = [dict(q_place=q, k_place=k, with_past=wp) for wp in (True, False) for q in ("none", "before", "after") for k in ("none", "before", "after")]
     insts += [dict(q_place="both", k_place="before", with_past=True), dict(q_place="after", k_place="both", with_past=False)]
     if ctx.tier == "thorough":
-        insts = insts * 3
+        insts = [dict(d) for d in insts * 3]
     # position_ids as a graph input: consecutive from the past length (must agree) / not (finding class: the rule never looks at it)
     insts += [dict(q_place="after", k_place="before", with_past=True, pos="consecutive"),
               dict(q_place="none", k_place="none", with_past=True, pos="from-zero"),
